@@ -116,6 +116,32 @@ def make_scenarios(ctx, count):
     return scns
 
 
+def make_session_scenarios(ctx, count):
+    """ordinary multi-mapper sessions (Discovers of both services, Emits, Probes, Queries, Resets) with QueryLargeTlv
+    requests sprinkled in from whoever is talking; every topology-service request is judged by the same per-call oracle"""
+    scns = []
+    for i in range(count):
+        rng = G.rng_for(ctx.seed, "C08s", i)
+        mtu = G.pick_mtu(rng)
+        cfg = G.rand_cfg(rng, mtu=mtu)
+        net = G.Net(rng, cfg["mac"])
+        glob = G.rand_global(rng, icon_size=rng.choice([0, 1, mtu - 34, mtu - 33, 2 * (mtu - 34), 5000, 20000]))
+        frames = G.session_history(rng, net, mtu, rng.randint(30, 80), p_mut=0.0, p_noise=0.0, p_misc=0.05, max_emit=2)
+        s = H.Scenario("ls%d" % i)
+        s.iface(0, **H.iface_kw(cfg)).glob(**G.global_kw(glob))
+        s.add("OPT sleep=0")
+        reqs = []
+        for fr in frames:
+            s.frame(0, fr)
+            if len(fr) >= 36 and fr[15] == 0 and fr[17] == W.OP_QLT:
+                reqs.append(("call", fr[32], struct.unpack(">H", fr[34:36])[0], struct.unpack(">H", fr[30:32])[0]))
+            else:
+                reqs.append(("other",))
+        s.meta = dict(reqs=reqs, glob=glob, mtu=mtu, own=cfg["mac"])
+        scns.append(s)
+    return scns
+
+
 def monitor(scn, sobj, rep, sf, ck):
     reqs, glob, mtu, own = sobj.meta["reqs"], sobj.meta["glob"], sobj.meta["mtu"], sobj.meta["own"]
     globs, switch_at = sobj.meta.get("globs", [glob]), sobj.meta.get("switch_at")
@@ -203,7 +229,7 @@ def run(ctx):
     rep.assumptions = ["the icon is changed only across Resets (it is cached per session by design)",
                        "requests are judged for the topology-discovery service; sizes above 32768 are outside the quantifier"]
     binary, plainf = H.build_many(ctx.work, [dict(flavour="asan"), dict(flavour="plain")])
-    scns = make_scenarios(ctx, ctx.n(600, 15000))
+    scns = make_scenarios(ctx, ctx.n(600, 15000)) + make_session_scenarios(ctx, ctx.n(600, 15000))
     run_monitored(ctx, binary, scns, monitor, tag="qlt")
     # the same requests without red zones: a wrong length/flag decision that makes the sanitizer kill the child
     # before anything is sent becomes an observable wrong response here
